@@ -393,3 +393,5 @@ def run(ctx):
     from .. import tstate
     r11 = ctx.rule('C19.R11', 'TSTATE', 'a received RST_STREAM lets the stream be forgotten from every state: no scheduled-only reset survives it (= C05.R8)')
     tstate.recv_reset_rows(r11, ctx.facts)
+    from . import C16
+    C16.r7_discard_frees(ctx, 'C19.R12')  # the window behind discarded DATA returns to the connection: flow-control bookkeeping goes back to its idle value (= C16.R7)
